@@ -324,8 +324,20 @@ func runUniverseCase(rng *rand.Rand, thorough bool, out *bufio.Writer, st *stats
 		sk, _ := w.snaps.Create(1, uint64(si), uint64(log[si-1].term), mkCfg(c), uint64(ci), nil)
 		_, _ = sk.Write(encodeState(fold(log, si)))
 		_ = sk.Close()
+		so := 0
+		if si >= 2 && rng.Intn(2) == 0 { // an older snapshot is retained as well
+			so = 1 + rng.Intn(si-1)
+			c2, ci2 := cfgAt(log, so)
+			sk2, _ := w.snaps.Create(1, uint64(so), uint64(log[so-1].term), mkCfg(c2), uint64(ci2), nil)
+			_, _ = sk2.Write(encodeState(fold(log, so)))
+			_ = sk2.Close()
+		}
 		if rng.Intn(2) == 0 {
-			log = log[1+rng.Intn(si):]
+			cut := 1 + rng.Intn(si)
+			if so > 0 && rng.Intn(4) != 0 {
+				cut = 1 + rng.Intn(so)
+			}
+			log = log[cut:]
 		}
 	}
 	var ls []*raft.Log
@@ -392,6 +404,9 @@ func runUniverseCase(rng *rand.Rand, thorough bool, out *bufio.Writer, st *stats
 			if e.kind == 'I' && e.failAt > 0 {
 				e.failAt = -1
 			}
+		}
+		if e.kind == 'R' && rng.Intn(2) == 0 && w.damageOK() {
+			e.kind = 'D'
 		}
 		evs = append(evs, e.tok())
 		hlens = append(hlens, len(u.H))
